@@ -40,6 +40,11 @@ fn menu() -> Vec<Expr> {
         m.push(Expr::Test(Test::IName(p.into())));
         m.push(Expr::Test(Test::Path(p.into())));
     }
+    // patterns whose letters are not ASCII, and a pattern next to its own escaped spelling
+    for p in ["ж*", "Ж*", "a\\b", "a\\\\b", "q\"r", "q\\\"r"] {
+        m.push(Expr::Test(Test::Name(p.into())));
+        m.push(Expr::Test(Test::IName(p.into())));
+    }
     let nl = Fmt::Special(Special::Newline);
     let p = |x| Expr::Action(x);
     m.push(p(Action::Print));
@@ -54,12 +59,19 @@ fn menu() -> Vec<Expr> {
     // a destination some find implementations single out
     m.push(p(Action::FPrintf("/dev/stdout".into(), vec![Fmt::Field(Field::Name)])));
     m.push(p(Action::FPrint("/dev/stdout".into())));
+    // names that differ only by leading dots and slashes
+    for f in ["../f", "./f", ".f", "/f"] {
+        m.push(p(Action::FPrint(f.into())));
+    }
     m
 }
 
 fn small_menu() -> Vec<Expr> {
     let m = menu();
-    [0usize, 1, 2, 6, 9, 12, 13, 14, 16, 17, 19, 22].iter().map(|i| m[*i].clone()).collect()
+    // one of each kind: name a, iname a, path a, name a*, iname ж*, name a\b, name a\\b, the stdout
+    // printers, f / g printers, /dev/stdout, ../f and ./f
+    let pick = ["Name(\"a\")", "IName(\"a\")", "Path(\"a\")", "Name(\"a*\")", "IName(\"ж*\")", "Name(\"ж*\")", "Name(\"a\\\\b\")", "Name(\"a\\\\\\\\b\")", "Print", "Print0", "FPrint(\"f\")", "FPrint0(\"f\")", "FPrint(\"g\")", "FPrint(\"../f\")", "FPrint(\"./f\")", "FPrint(\"/dev/stdout\")"];
+    m.into_iter().filter(|e| pick.contains(&e.show().as_str())).collect()
 }
 
 fn chain(items: &[Expr]) -> Expr {
@@ -175,7 +187,7 @@ fn behaviour(prog: &Prog, io: &Option<IoMap>, refs: &[String], reqs: &[Req]) -> 
     for (i, v) in &probes {
         match &reqs[*i] {
             Req::Matcher(p, ci) => {
-                for s in ["a", "A", "ab", "b", "xa"] {
+                for s in ["a", "A", "ab", "b", "xa", "жук", "Жук", "a\\b", "ab", "a\\\\b", "q\"r", "q\\\"r"] {
                     let got = it.apply(v, vec![Val::Str(Rc::from(s))]).map_err(fail)?;
                     let want = spec_eval::test(&if *ci { Test::IName(p.clone()) } else { Test::Name(p.clone()) }, &Record { name: s.into(), ..rec.clone() }, 0).unwrap();
                     if truthy(&got) != want {
@@ -288,8 +300,8 @@ pub fn run(ctx: &Ctx) -> i32 {
     let sm = small_menu();
     let mut acc = Acc::new();
     let (full_len, small_len) = match ctx.tier {
-        Tier::Quick => (4, 4),
-        Tier::Thorough => (5, 6),
+        Tier::Quick => (3, 4),
+        Tier::Thorough => (4, 5),
     };
     for n in 1..=full_len {
         let total = (m.len() as u64).pow(n as u32);
